@@ -2,6 +2,7 @@
 // crash attribution.  See DESIGN.md section 3.
 #pragma once
 #include "json.hpp"
+#include "covrt.hpp"
 
 #include <atomic>
 #include <chrono>
